@@ -1127,6 +1127,41 @@ def callBuiltin (r : Rec) (b : Bi) (args : Val) : M Val :=
     let (v, _) ← nextArg r args
     let name ← strOf v
     r.load name
+  -- host functions registered by the harness with #[tulisp_fn] -----------------------
+  | .hTwo => do
+    let (a, rest) ← nextArg r args
+    let (b', _) ← nextArg r rest
+    mkListM [a, b']
+  | .hOpt => do
+    let (a, rest) ← nextArg r args
+    let (b', _) ← nextArg r rest
+    if b'.isNil then do let s ← mkStr "none"; mkListM [a, s] else mkListM [a, b']
+  | .hRest => do
+    let (a, rest) ← nextArg r args
+    let vs ← evalEach r rest
+    let l ← mkListM vs
+    mkCons a l
+  | .hInt => do
+    let (av, rest) ← nextArg r args
+    let a ← intOf av
+    let (bv, _) ← nextArg r rest
+    let b' ← if bv.isNil then pure 7 else intOf bv
+    -- wrapping i64 arithmetic of the host function
+    let wrap (n : Int) : Int := ((n - i64Min) % 18446744073709551616) + i64Min
+    pure (.int (wrap (wrap (a * 10) + b')))
+  | .hFloat => do
+    let (av, _) ← nextArg r args
+    let a ← numOf av
+    pure (.float (bitsOf (f64 a.asF64 * 2.0)))
+  | .hStr => do
+    let (av, rest) ← nextArg r args
+    let a ← strOf av
+    let (bv, _) ← nextArg r rest
+    let b' ← if bv.isNil then pure "-" else strOf bv
+    mkStr (a ++ "|" ++ b')
+  | .hBool => do
+    let (a, _) ← nextArg r args
+    pure (ofBool a.isNil)
   -- harness -------------------------------------------------------------------------
   | .tick => do
     let a ← liftE (carV args)
